@@ -58,6 +58,6 @@ LEVEL_NOTE = "Trusted: S1, S3-S6, S7', re semantics."
 TECHNIQUE = CH_TECH + "; z3 regular-language emptiness of pairwise intersections"
 ENGINE = "CH+RX"
 EXPLANATION = "see obligation_table"
-BOUNDS = "4 lines x 3 kinds; insertion at 5 positions of a 4-line section; all strings for disjointness"
+BOUNDS = "4 lines x 3 kinds; runs of <=8/12 lines symbolic and 5..4097 lines native; insertion at 5 positions of a 4-line section; all strings for disjointness"
 OUTSIDE = "sections longer than the bound (the dispatcher handles lines independently in a loop)"
 ASSUMPTIONS = [S1, S3, S4, S6]
